@@ -75,6 +75,33 @@ fn make_machine(cfg: &Config) -> Box<dyn Machine> {
     }
 }
 
+/// How long a manager must live before it is dropped so that its collector thread has parked
+/// (see `Mach::drop`). On a loaded machine thread start-up takes longer and the leak rate goes
+/// up; leaked threads eat process ids (pid_max is 32768 here, 16 workers share it), so the
+/// minimum lifetime grows with the number of threads this process already has.
+pub fn manager_min_lifetime_us() -> u64 {
+    use std::sync::atomic::{AtomicU64, Ordering::Relaxed};
+    static CALLS: AtomicU64 = AtomicU64::new(0);
+    static CURRENT: AtomicU64 = AtomicU64::new(400);
+    if CALLS.fetch_add(1, Relaxed) % 8 == 0 {
+        let threads = std::fs::read_to_string("/proc/self/stat")
+            .ok()
+            .and_then(|s| s.rsplit(')').next().map(|t| t.to_string()))
+            .and_then(|t| t.split_whitespace().nth(17).and_then(|x| x.parse::<u64>().ok()))
+            .unwrap_or(0);
+        CURRENT.store(
+            match threads {
+                0..=200 => 400,
+                201..=400 => 1_500,
+                401..=700 => 5_000,
+                _ => 20_000,
+            },
+            Relaxed,
+        );
+    }
+    CURRENT.load(Relaxed)
+}
+
 /// set by the C14 capacity sweep (and its replays): enables the sub-sweeps that create many
 /// short-lived managers per instruction
 pub static SWEEP_MODE: std::sync::atomic::AtomicBool = std::sync::atomic::AtomicBool::new(false);
